@@ -47,6 +47,17 @@ func (valStream) Header() (metadata.MD, error) { return nil, nil }
 
 func runC17(o *hx.Out, r *hx.Rand, thorough bool) {
 	l := &evlog{}
+	var stackDesc interface{}
+	defer func() {
+		// a panic inside the interception code (building a stack, or a call through it) is a violation with the
+		// stack that provoked it; the cases gathered so far are still evaluated
+		if p := recover(); p != nil {
+			d := map[string]interface{}{"stack_outermost_first": stackDesc, "panic": fmt.Sprint(p)}
+			o.Violate("building or calling through a stack of client interceptors panicked", d, fmt.Sprint(p), nil)
+			o.Case("panic", "CCase false [] false 0 \"panic\" 0 [] (Err 13) [] false", d)
+			o.Shard = 150
+		}
+	}()
 	var baseConn *grpc.ClientConn // the real connection when the base is one
 	ccTerm := func(cc *grpc.ClientConn, desc map[string]interface{}) string {
 		if cc == nil {
@@ -219,6 +230,7 @@ func runC17(o *hx.Out, r *hx.Rand, thorough bool) {
 				layers[i].s = &s
 			}
 		}
+		stackDesc = layers
 		// build from the innermost layer out
 		ch := base
 		identOK := true
@@ -237,16 +249,44 @@ func runC17(o *hx.Out, r *hx.Rand, thorough bool) {
 			sib := cscript{Tag: 99, Calls: 1, DReq: 500, DResp: 70000}
 			_ = grpchan.InterceptClientConn(ch, mkUnary(sib), mkStream(sib))
 			if ui == nil && si == nil {
-				if w != ch {
+				_, f1 := w.(foreignWrapper)
+				_, f2 := ch.(foreignWrapper)
+				if f1 != f2 || (!f1 && w != ch) {
 					identOK = false
 				}
 			} else {
 				wc, ok := w.(grpchan.WrappedClientConn)
-				if !ok || wc.Unwrap() != ch {
+				if _, foreign := ch.(foreignWrapper); !ok || (!foreign && wc.Unwrap() != ch) {
 					identOK = false
 				}
 			}
 			ch = w
+			// now and then a wrapper of somebody else's sits between two layers (once, or twice in a row): a
+			// value type holding a map, which only forwards; interception above and below it is unaffected
+			if i > 0 && r.Chance(25) {
+				ch = foreignWrapper{ch, metadata.MD{"tag": {"x"}}}
+				if r.Chance(50) {
+					ch = foreignWrapper{ch, metadata.MD{"tag": {"y"}}}
+				}
+			}
+		}
+		// an interceptor may keep the options it was shown (an audit log, a stream opened lazily): they
+		// are that call's options for good, whatever calls are made afterwards
+		{
+			var kept [][]grpc.CallOption
+			audit := grpchan.InterceptClientConn(base, func(ctx context.Context, method string, req, reply interface{}, cc *grpc.ClientConn, invoker grpc.UnaryInvoker, opts ...grpc.CallOption) error {
+				kept = append(kept, opts)
+				return invoker(ctx, method, req, reply, cc, opts...)
+			}, nil)
+			m := "/verif.Svc/U"
+			audit.Invoke(context.Background(), m, &hx.Msg{Count: 1}, &hx.Msg{}, grpc.MaxCallRecvMsgSize(1), grpc.MaxCallRecvMsgSize(2))
+			first := fmt.Sprint(optIDs(kept[0]))
+			audit.Invoke(context.Background(), m, &hx.Msg{Count: 1}, &hx.Msg{}, grpc.MaxCallRecvMsgSize(7), grpc.MaxCallRecvMsgSize(8), grpc.MaxCallRecvMsgSize(9))
+			l.take()
+			if again := fmt.Sprint(optIDs(kept[0])); again != first || first != "[1 2]" {
+				identOK = false
+				o.Violate("the options an interceptor was shown for one call changed when a later call was made", map[string]interface{}{"first_call_options": first, "same_slice_after_second_call": again}, again, first)
+			}
 		}
 		var lt []string
 		for _, ly := range layers {
@@ -330,3 +370,12 @@ func failErr(c int64) error {
 	}
 	return status.Error(codes.Code(c), "scripted")
 }
+
+// foreignWrapper is a channel decorator of another package's making: a value type with a map in it (so not
+// comparable with ==) that forwards everything and can be unwrapped
+type foreignWrapper struct {
+	grpc.ClientConnInterface
+	extra metadata.MD
+}
+
+func (f foreignWrapper) Unwrap() grpc.ClientConnInterface { return f.ClientConnInterface }
